@@ -555,6 +555,59 @@ func independent(c *wk.Case, f *sfnt.Font, b []byte) {
 			if want >= 0 && moves != want {
 				c.Fail("independent-parser", "LoadGlyph/contours", "glyph %d: the font value has %d contours, golang.org/x/image/font/sfnt finds %d sub-paths in the file", gid, want, moves)
 			}
+			// every point of the glyph must come back from the independent
+			// parser: on-curve points as segment end points, off-curve
+			// points as control points (x/image adds implied mid-points
+			// but drops nothing).  Coordinates are exact at ppem ==
+			// unitsPerEm unless x/image's 32-bit product would overflow.
+			if want > 0 {
+				sg := g.Data.(glyf.SimpleGlyph)
+				info, _ := sg.Decode()
+				upem := int64(f.UnitsPerEm)
+				ends := map[[2]int64]bool{}
+				ctrls := map[[2]int64]bool{}
+				for _, s := range segs {
+					switch s.Op {
+					case xsfnt.SegmentOpMoveTo, xsfnt.SegmentOpLineTo:
+						ends[[2]int64{int64(s.Args[0].X), int64(s.Args[0].Y)}] = true
+					case xsfnt.SegmentOpQuadTo:
+						ctrls[[2]int64{int64(s.Args[0].X), int64(s.Args[0].Y)}] = true
+						ends[[2]int64{int64(s.Args[1].X), int64(s.Args[1].Y)}] = true
+					}
+				}
+				exact := true
+				for _, ct := range info.Contours {
+					for _, pt := range ct {
+						for _, v := range []int64{int64(pt.X), int64(pt.Y)} {
+							if v < 0 {
+								v = -v
+							}
+							if v*upem*64+upem >= 1<<31 {
+								exact = false
+							}
+						}
+					}
+				}
+				if exact {
+				pts:
+					for ci, ct := range info.Contours {
+						for pi, pt := range ct {
+							key := [2]int64{int64(pt.X) * 64, -int64(pt.Y) * 64}
+							set, what := ends, "on-curve"
+							if !pt.OnCurve {
+								set, what = ctrls, "off-curve"
+							}
+							if !set[key] {
+								c.Fail("independent-parser", "LoadGlyph/points", "glyph %d contour %d point %d: %s point (%d,%d) of the font value does not occur in the outline golang.org/x/image/font/sfnt loads from the file", gid, ci, pi, what, pt.X, pt.Y)
+								break pts
+							}
+						}
+					}
+					c.Count("ximage_points_checked", 1)
+				} else {
+					c.Count("ximage_points_inexact_skipped", 1)
+				}
+			}
 		}
 		c.Count("ximage_outlines_checked", 1)
 	}
